@@ -152,3 +152,40 @@ def history {α} (c : Option Constraint) (sols : List α) (ks : List (Option Nat
   ks.map fun k => consume k (run c sols)
 
 end KrroodVerif.Quant
+
+namespace KrroodVerif.Quant
+
+/-- number of child results the generator loop has taken from its (lazy) child when it ends: the result that makes the
+count exceed an upper bound is the last one taken -/
+def consumedFrom {α} (c : Option Constraint) : Nat → List α → Nat
+  | _, [] => 0
+  | count, _ :: xs =>
+      match assertOpt c (count + 1) false with
+      | .error _ => 1
+      | .ok () => 1 + consumedFrom c (count + 1) xs
+
+def consumed {α} (c : Option Constraint) (sols : List α) : Nat := consumedFrom c 0 sols
+
+/-- what the `p`-th `next()` (0-based) on ONE evaluation returns: a value, then the outcome (end of iteration or the
+error), then nothing any more (a finished generator) -/
+inductive NextObs (α : Type) where
+  | value (x : α)
+  | finished (o : Outcome)
+  | exhausted
+  deriving Repr, DecidableEq
+
+def nextObs {α} (r : List α × Outcome) (p : Nat) : NextObs α :=
+  match r.1[p]? with
+  | some x => .value x
+  | none => if p = r.1.length then .finished r.2 else .exhausted
+
+/-- several evaluations of ONE query object advanced in an interleaved order `js` (the j-th entry names the evaluation
+whose `next()` is called): every evaluation counts on its own — its p-th `next()` is the p-th observation of the
+evaluation run alone -/
+def interleaved {α} (c : Option Constraint) (sols : List α) : List Nat → List (Nat × Nat) → List (Nat × NextObs α)
+  | [], _ => []
+  | j :: rest, pos =>
+    let p := (pos.lookup j).getD 0
+    (j, nextObs (run c sols) p) :: interleaved c sols rest ((j, p + 1) :: pos.filter (·.1 != j))
+
+end KrroodVerif.Quant
